@@ -12,6 +12,8 @@ notes = {
  "C16-r3-mut1": "miscompiles `for v = range g` (C06's clause); C16's check does not claim 'tests pass afterwards'",
  "C08-r5-mut2": "changes stack depth only (values and order unchanged): C17's clause, written against C08 by the sub-agent",
  "C16-r3-mut2": "miscompiles break/continue after a closure (C01/C13's clause); C16's check does not claim 'tests pass afterwards'",
+ "C01-r6-mut2": "lost shadowing of a tuple-valued `:=` loop/switch header (C03's clause: the sub-agent flagged it as a scoping change itself)",
+ "C03-r6-mut1": "eta reduction of pointer-receiver method values changes when the receiver is evaluated (C13's clause 'time of evaluation of callee and receiver'; also caught by C02/C06/C07/C14/C18)",
 }
 out = ["# Which checks catch which seeded change", "",
        "Produced by `tools/matrix.sh`: every seeded change is applied to a scratch worktree of /repo (never to /repo itself) and all 18 checks are run on it (controls off).",
